@@ -209,3 +209,246 @@ Proof.
         destruct (Nat.eqb_spec cp 0); [lia|]. cbn [cap clients chlen]. lia.
     + rewrite length_sessions in *. cbn [bg cur] in *. exact Ig.
 Qed.
+
+Lemma Forall_snoc : forall A (P : A -> Prop) l x, Forall P l -> P x -> Forall P (l ++ [x]).
+Proof. intros. apply Forall_app. split; auto. Qed.
+
+Ltac unf :=
+  unfold main_ret, record_poll, finish, set_mn, set_tok, set_cur, set_bg, in_use, tot, sessions in *;
+  cbn [tok bg cur mn polls gets] in *.
+
+Ltac case_cap :=
+  repeat match goal with
+  | H : context [?x =? 0] |- _ => destruct (Nat.eqb_spec x 0)
+  | |- context [?x =? 0] => destruct (Nat.eqb_spec x 0)
+  end.
+
+Lemma sum_app : forall l1 l2, sum (l1 ++ l2) = sum l1 + sum l2.
+Proof. induction l1 as [|x l IH]; intros; cbn; [lia | rewrite IH; lia]. Qed.
+
+Ltac arith t :=
+  try rewrite !map_app in *; try rewrite !sum_app in *; try rewrite !app_length; try rewrite !app_nil_r;
+  tok_case t; unfold holds, pend, new_sess in *; cbn [map sum length mrel hrel hp orb mpend mget] in *;
+  case_cap; cbn [cap clients chlen] in *;
+  repeat match goal with H : _ || _ = true |- _ => apply orb_true_iff in H end;
+  repeat match goal with H : _ \/ _ |- _ => destruct H end; try discriminate;
+  repeat match goal with H : (_ <? _) = true |- _ => apply Nat.ltb_lt in H end;
+  try lia.
+
+Lemma step_main_inv : forall N st l st',
+  (forall i a, l <> LH i a) -> Inv N st -> step V1 st l = Some st' -> Inv N st'.
+Proof.
+  intros N st l st' Hl I H. destruct I as [Icap Ibg Icur Icl Ich Ig Ip].
+  destruct st as [t m b cu ps g]. cbn [tok bg cur mn polls gets] in *.
+  assert (Hpoll : m = MPoll -> poll_ok (reported t, sum (map holds (b ++ match cu with Some c => [c] | None => [] end)))).
+  { intros ->. apply reported_ok. rewrite Icl. unfold tot. cbn [bg cur mget].
+    destruct cu; [rewrite sum_map_app | rewrite app_nil_r]; f_equal; lia. }
+  destruct l; try (exfalso; eapply Hl; reflexivity); clear Hl;
+    cbn [step] in H; cbn [tok bg cur mn polls gets] in H;
+    destruct m; try discriminate; destruct cu as [c|]; cbn in Icur; try discriminate;
+    unf;
+    try (destruct (send_ready t) eqn:SR; [|discriminate]);
+    try (destruct (recv_ready t) eqn:RR; [|discriminate]);
+    try (crush_sess c; cbn in Icur; try discriminate);
+    inversion H; subst; clear H;
+    (constructor; unf;
+     [ tok_case t; case_cap; auto
+     | try (apply Forall_snoc; auto; reflexivity); auto
+     | cbn; auto
+     | arith t
+     | intros HN; specialize (Ich HN); arith t
+     | arith t
+     | try (apply Forall_snoc; auto; apply Hpoll; reflexivity); auto ]).
+Qed.
+
+Lemma step_inv : forall N st l st', Inv N st -> step V1 st l = Some st' -> Inv N st'.
+Proof.
+  intros N st l st' I H. destruct l;
+    try (eapply step_main_inv; [ | exact I | exact H ]; intros; discriminate).
+  eapply step_handler_inv; eauto.
+Qed.
+
+Lemma run_inv_from : forall N ls st st', Inv N st -> run V1 st ls = Some st' -> Inv N st'.
+Proof.
+  induction ls as [|l ls IH]; intros st st' I H; cbn in H.
+  - inversion H; subst; auto.
+  - destruct (step V1 st l) as [s1|] eqn:E; [|discriminate]. eapply IH; [|exact H]. eapply step_inv; eauto.
+Qed.
+
+Lemma run_inv : forall N ls st, run V1 (init N) ls = Some st -> Inv N st.
+Proof. intros. eapply run_inv_from; [apply Inv_init | eauto]. Qed.
+
+(* ------------------------------------------------------------------ consequences of Inv *)
+
+Lemma bg_active_le : forall l, Forall (fun c => bg_ok c = true) l ->
+  sum (map (fun c => if serving c then 1 else 0) l) <= sum (map holds l).
+Proof.
+  induction 1 as [|c l Hc _ IH]; cbn; [lia|].
+  assert ((if serving c then 1 else 0) <= holds c) by (crush_sess c; lia). lia.
+Qed.
+
+Lemma inv_active_le_in_use : forall N st, Inv N st -> n_active st <= in_use st.
+Proof.
+  intros N st [_ Ibg Icur _ _ _ _]. rewrite in_use_tot. unfold n_active, tot.
+  assert (H := bg_active_le _ Ibg).
+  destruct (cur st) as [c|]; [|lia].
+  assert ((if serving c || (negotiating (mn st) && handler_pending c) then 1 else 0) <= holds c).
+  { destruct (mn st); crush_sess c; lia. }
+  lia.
+Qed.
+
+Lemma inv_in_use_le_cap : forall N st, N <> 0 -> Inv N st -> in_use st <= N.
+Proof. intros N st HN I. rewrite in_use_tot. destruct (inv_ch _ _ I HN). lia. Qed.
+
+Lemma sess_released_le1 : forall N st c, Inv N st -> In c (sessions st) -> released c <= 1.
+Proof.
+  intros N st c [_ Ibg Icur _ _ _ _] Hin. unfold sessions in Hin. apply in_app_or in Hin as [Hin|Hin].
+  - rewrite Forall_forall in Ibg. specialize (Ibg _ Hin). crush_sess c; lia.
+  - destruct (cur st) as [c0|]; [|contradiction]. destruct Hin as [<-|[]].
+    destruct (mn st); crush_sess c0; lia.
+Qed.
+
+Lemma sess_terminated_released : forall N st c, Inv N st ->
+  In c (bg st) -> handler_quiet c = true -> released c = 1.
+Proof.
+  intros N st c [_ Ibg _ _ _ _ _] Hin Hq. rewrite Forall_forall in Ibg. specialize (Ibg _ Hin).
+  crush_sess c; reflexivity.
+Qed.
+
+Lemma quiet_holds0 : forall l, Forall (fun c => bg_ok c = true) l -> forallb handler_quiet l = true ->
+  sum (map holds l) = 0 /\ sum (map pend l) = 0.
+Proof.
+  induction 1 as [|c l Hc _ IH]; cbn; intros Hq; [auto|].
+  apply andb_true_iff in Hq as [Hq1 Hq2]. destruct (IH Hq2) as [E1 E2].
+  assert (holds c = 0 /\ pend c = 0) by (crush_sess c; auto). lia.
+Qed.
+
+Lemma inv_all_terminated : forall N st, Inv N st -> all_terminated st = true ->
+  in_use st = 0 /\ count (tok st) = mget (mn st) /\ (N <> 0 -> chlen (tok st) = 0) /\ idle (mn st) = true.
+Proof.
+  intros N st I Ht. unfold all_terminated in Ht. apply andb_true_iff in Ht as [Hc Hq].
+  destruct I as [_ Ibg Icur Icl Ich _ _]. rewrite in_use_tot. unfold tot, count in *.
+  destruct (cur st); [discriminate|]. destruct (quiet_holds0 _ Ibg Hq) as [E1 E2].
+  rewrite E1, E2 in *. repeat split; auto; try lia.
+  intros HN. specialize (Ich HN). destruct (mn st); cbn in *; try discriminate; lia.
+Qed.
+
+Lemma inv_polls_again : forall N st, Inv N st -> all_terminated st = true -> mn st = MTop ->
+  exists st1 st2, step V1 st LGet = Some st1 /\ step V1 st1 LGetSend = Some st2 /\
+                  mn st2 = MPoll /\ in_use st2 = 1.
+Proof.
+  intros N st I Ht Hm. destruct (inv_all_terminated _ _ I Ht) as (Hu & Hc & Hch & _).
+  assert (Hcap := inv_cap _ _ I).
+  unfold all_terminated in Ht. apply andb_true_iff in Ht as [Hcur Hq].
+  destruct st as [t m b cu ps g]. cbn [tok mn bg cur] in *. subst m. destruct cu; [discriminate|].
+  cbn [step mn tok set_tok set_mn].
+  assert (SR : send_ready (tok_inc t) = true).
+  { tok_case t. destruct (Nat.eqb_spec cp 0) as [|n]; [reflexivity|]. cbn. apply Nat.ltb_lt.
+    rewrite Hch by lia. lia. }
+  eexists. eexists. split; [reflexivity|]. cbn [step mn tok set_tok set_mn bg cur polls gets]. rewrite SR.
+  split; [reflexivity|]. split; [reflexivity|].
+  rewrite in_use_tot in *. unfold tot in *. cbn [bg cur] in *. cbn. lia.
+Qed.
+
+Lemma inv_ret_never_blocks : forall N st, Inv N st ->
+  (mn st = MRetRecv \/ exists c, In c (sessions st) /\ hp c = HRetRecv) -> recv_ready (tok st) = true.
+Proof.
+  intros N st I H. unfold recv_ready. destruct (Nat.eqb_spec (cap (tok st)) 0) as [|n]; [reflexivity|].
+  rewrite (inv_cap _ _ I) in n. destruct (inv_ch _ _ I n) as [E _]. cbn [orb]. apply Nat.ltb_lt.
+  destruct H as [H | (c & Hin & Hc)].
+  - rewrite H in E. cbn in E. lia.
+  - assert (1 <= tot pend st).
+    { rewrite <- sum_sessions. clear E. induction (sessions st) as [|x l IH]; [contradiction|].
+      cbn. destruct Hin as [->|Hin]; [unfold pend at 1; rewrite Hc; lia | specialize (IH Hin); lia]. }
+    lia.
+Qed.
+
+(* ------------------------------------------------------------------ V0: tie-free schedules *)
+
+Lemma nth_sessions : forall st i,
+  nth_error (sessions st) i =
+  match nth_error (bg st) i with
+  | Some c => Some c
+  | None => if i =? length (bg st) then cur st else None
+  end.
+Proof.
+  intros st i. unfold sessions. destruct (nth_error (bg st) i) as [c|] eqn:E.
+  - rewrite nth_error_app1; [auto|]. apply nth_error_Some. congruence.
+  - apply nth_error_None in E. rewrite nth_error_app2 by lia.
+    destruct (Nat.eqb_spec i (length (bg st))) as [->|n].
+    + rewrite Nat.sub_diag. destruct (cur st); reflexivity.
+    + destruct (cur st); [|apply nth_error_None; cbn; lia].
+      destruct (i - length (bg st)) as [|k] eqn:D; [lia|]. cbn. destruct k; reflexivity.
+Qed.
+
+Lemma step_v0_v1 : forall st l, tie_step st l = false -> step V0 st l = step V1 st l.
+Proof.
+  intros st l Ht. destruct l; try reflexivity.
+  - cbn [step]. destruct (mn st); try reflexivity. cbn in Ht.
+    destruct (cur st) as [c|]; [|reflexivity]. destruct (own c); try reflexivity. discriminate.
+  - cbn [step]. cbn [tie_step] in Ht. destruct a; try reflexivity.
+    rewrite nth_sessions in Ht.
+    destruct (nth_error (bg st) i) as [c|].
+    + unfold hstep. destruct (hp c); try reflexivity. destruct (own c); try reflexivity. discriminate.
+    + destruct (i =? length (bg st)); [|reflexivity]. destruct (cur st) as [c|]; [|reflexivity].
+      unfold hstep. destruct (hp c); try reflexivity. destruct (own c); try reflexivity. discriminate.
+Qed.
+
+Lemma run_v0_v1 : forall ls st, tie_free V0 st ls = true -> run V0 st ls = run V1 st ls.
+Proof.
+  induction ls as [|l ls IH]; intros st Ht; [reflexivity|].
+  cbn in *. apply andb_true_iff in Ht as [H1 H2]. apply negb_true_iff in H1.
+  rewrite <- (step_v0_v1 _ _ H1). destruct (step V0 st l); [apply IH; exact H2 | reflexivity].
+Qed.
+
+(* ------------------------------------------------------------------ V0 witnesses *)
+
+(* sendAnswer reports an error after the broker has forwarded the answer and the client has
+   opened its data channel: runSession releases, and the handler releases again when it ends. *)
+Definition w_answer_fail : list label :=
+  [LGet; LGetSend; LPollOffer; LRelayOk; LPcOk; LDcOpen; LH 0 HClaim;
+   LAnswerFail; LGiveUp; LClose; LMainRecv; LH 0 HEnd].
+
+(* the data channel opens while the 20 s timer fires: the select takes the timer case *)
+Definition w_select_tie : list label :=
+  [LGet; LGetSend; LPollOffer; LRelayOk; LPcOk; LAnswerOk; LDcOpen; LH 0 HClaim;
+   LSelectTimeout; LGiveUp; LClose; LMainRecv; LH 0 HEnd].
+
+Definition w_open (i : nat) : list label :=
+  [LGet; LGetSend; LPollOffer; LRelayOk; LPcOk; LAnswerOk; LDcOpen; LH i HClaim; LSelectOpen].
+
+(* capacity 2: a served client, then a doubly released session, then two more served clients *)
+Definition w_capacity : list label :=
+  w_open 0 ++
+  [LGet; LGetSend; LPollOffer; LRelayOk; LPcOk; LDcOpen; LH 1 HClaim;
+   LAnswerFail; LGiveUp; LClose; LMainRecv; LH 1 HEnd; LH 1 HRecv] ++
+  w_open 2 ++ w_open 3.
+
+Lemma v0_answer_fail_double_release :
+  exists st c, run V0 (init 1) w_answer_fail = Some st /\ nth_error (sessions st) 0 = Some c /\
+               released c = 2 /\ count (tok st) = (-1)%Z /\ step V0 st (LH 0 HRecv) = None.
+Proof. eexists. eexists. vm_compute. repeat split. Qed.
+
+Lemma v0_select_tie_double_release :
+  exists st c, run V0 (init 1) w_select_tie = Some st /\ nth_error (sessions st) 0 = Some c /\
+               released c = 2 /\ count (tok st) = (-1)%Z.
+Proof. eexists. eexists. vm_compute. repeat split. Qed.
+
+Lemma v0_capacity_exceeded :
+  exists st, run V0 (init 2) w_capacity = Some st /\ n_active st = 3 /\ count (tok st) = 2%Z.
+Proof. eexists. vm_compute. repeat split. Qed.
+
+(* the same races on the repaired machine: runSession sees that the handler owns the session *)
+Definition w1_answer_fail : list label :=
+  [LGet; LGetSend; LPollOffer; LRelayOk; LPcOk; LDcOpen; LH 0 HClaim;
+   LAnswerFail; LGiveUp; LH 0 HEnd; LH 0 HRecv].
+Definition w1_select_tie_late_handler : list label :=
+  [LGet; LGetSend; LPollOffer; LRelayOk; LPcOk; LAnswerOk; LSelectTimeout; LGiveUp; LDcOpen;
+   LClose; LH 0 HClaim; LMainRecv].
+
+Lemma v1_race_schedules_ok :
+  (exists st, run V1 (init 1) w1_answer_fail = Some st /\ all_terminated st = true /\
+              in_use st = 0 /\ count (tok st) = 0%Z) /\
+  (exists st, run V1 (init 1) w1_select_tie_late_handler = Some st /\ all_terminated st = true /\
+              in_use st = 0 /\ count (tok st) = 0%Z).
+Proof. split; eexists; vm_compute; repeat split. Qed.
